@@ -107,7 +107,7 @@ def model_repr(ans: str) -> dict:
     mn, rest = rest.split(" an=", 1)
     an = rest.split(" ")[0]
     tup = "(" + ", ".join(dims) + ("," if len(dims) == 1 else "") + ")"
-    return {"v": "ok", "repr": f"TensorTypeBase[{tup}]", "mi": None if mi == "None" else int(mi), "mn": None if mn == "None" else mn, "an": an == "1"}
+    return {"v": "ok", "repr": f"TensorTypeBase[{tup}]", "mi": None if mi == "None" else int(mi), "mn": None if mn == "-" else mn, "an": an == "1"}
 
 
 def corpus_strings() -> list[str]:
@@ -159,7 +159,7 @@ def run(tier: str, seed: int, rep: Report, model: Model) -> dict:
     strings += muts
     # identifier stream: legal and illegal names in every position a name can take (before '=', after '*', as operand)
     names = ["a", "Ab_1", "x9", "n_", "a__b", "_", "_n", "__x", "_1", "1a", "9", "a.b", "a-b", "a b", "", "A", "é", "a$", "$a", "a'", "min", "max",
-             "isqrt", "mina", "Min", "a:", "[a]", "a,b", "...", "..", "*", "**"]
+             "isqrt", "mina", "Min", "a:", "[a]", "a,b", "...", "..", "*", "**", "None", "True", "in", "-"]
     ident = []
     for nm in names:
         for tmpl in ("{n}", "{n}=3", "{n}=b+1", "*{n}", "{n}+1", "2*{n}", "min({n},1)", "isqrt({n})", "b {n}", "{n}=", "x={n}", "x={n}+1", "({n})", "*{n} b", "{n}={n}"):
